@@ -53,7 +53,9 @@ func (c *Completer) Init() {
 }
 
 func setHook(p *slip.Package, key string) {
-	if p == &Pkg ||
+	// The hook is also called with the package qualified name of the same
+	// variable, the configuration file lists each variable once by its name.
+	if (p == &Pkg && !strings.ContainsRune(key, ':')) ||
 		strings.HasPrefix(key, "*print-") ||
 		key == "*bag-time-format*" ||
 		key == "*bag-time-wrap*" {
